@@ -87,7 +87,7 @@ theorem join_wf : GraphWF5 joinKinds joinLinks := by
   · intro n w m port hn hw hm
     rw [join_getL] at hm
     have hn4 : n < 4 := hn
-    have hw8 : w < 8 := hw
+    have hw8 : w < 64 := hw
     have h0 : ¬ (wkey n w = srcKey) := by simp only [wkey, srcKey, srcNode]; omega
     rw [if_neg h0] at hm
     by_cases h1 : wkey n w = wkey 0 1
